@@ -153,6 +153,9 @@ def kani_env():
 def run_group(root, hs, features, timeout):
     """run a list of harnesses (same features) in one cargo kani invocation"""
     cmd = ["cargo", "kani", "-Z", "function-contracts", "-Z", "stubbing", "--output-format", "terse", "-j", str(min(16, max(1, len(hs))))]
+    ca = hs[0].get("cbmc_args")
+    if ca:
+        cmd[6:6] = ["-Z", "unstable-options"]
     if features:
         cmd += ["--features", features]
     cmd += ["--exact"]
@@ -162,6 +165,8 @@ def run_group(root, hs, features, timeout):
             mp = mp[:-5]
         mp = "" if mp == "lib" else mp + "::"
         cmd += ["--harness", f"{mp}verif_kani_{h['module']}::{h['name']}"]
+    if ca:
+        cmd += ["--cbmc-args"] + list(ca)  # per-harness option "cbmc_args": passed through to CBMC (must come last)
     t0 = time.time()
     # own process group, so that a timeout kills only THIS run's cbmc processes (other runs may be in flight)
     p = subprocess.Popen(cmd, cwd=root, stdout=subprocess.PIPE, stderr=subprocess.PIPE, text=True, env=kani_env(), start_new_session=True)
@@ -190,6 +195,9 @@ def playback_for(root, h, features):
            "--harness", f"{mp}verif_kani_{h['module']}::{h['name']}"]
     if features:
         cmd += ["--features", features]
+    if h.get("cbmc_args"):
+        cmd[6:6] = ["-Z", "unstable-options"]
+        cmd += ["--cbmc-args"] + list(h["cbmc_args"])
     try:
         p = subprocess.run(cmd, cwd=root, capture_output=True, text=True, env=kani_env(), timeout=h.get("timeout", 300))
     except subprocess.TimeoutExpired:
@@ -214,8 +222,8 @@ def run_for(prop, tier):
     results = []
     groups = {}
     for h in hs:
-        groups.setdefault(h.get("features", ""), []).append(h)
-    for feats, gh in groups.items():
+        groups.setdefault((h.get("features", ""), tuple(h.get("cbmc_args", []))), []).append(h)
+    for (feats, _ca), gh in groups.items():
         timeout = max(h.get("timeout", 300) for h in gh) + 120
         cmd, out, timed_out, wall = run_group(root, gh, feats, timeout)
         parsed = parse_kani_output(out)
